@@ -30,9 +30,6 @@ def parseEvents (B : Nat) : Nat → List String → Except String (List (Ev BigF
   | fuel+1, "R" :: rest => do
       let es ← parseEvents B fuel rest
       return Ev.reset :: es
-  | fuel+1, "Z" :: rest => do
-      let es ← parseEvents B fuel rest
-      return Ev.resetFixed :: es
   | fuel+1, "S" :: rest => do
       let (xs, rest') ← take B rest
       let v ← nums xs
@@ -59,7 +56,6 @@ def rtbNumTrace (c : Cfg) (d tol : BigF) : RtbSt BigF → List (Ev BigF) → Lis
     let bits := match e with
       | .step loss => let o := rtbObs d tol s.last loss; [bit o.nodec, bit o.below]
       | .reset => [2, 2]
-      | .resetFixed => [2, 2]
     stCode s'.st :: bits ++ rtbNumTrace c d tol s' es
 
 def sopNumTrace (c : Cfg) (d : BigF) : St → List (OptObs BigF) → List Nat
@@ -78,10 +74,6 @@ def traceGo (kind : String) (f : St → Obs → St) (s : St) : List String → E
   | "R" :: r => do
       if kind != "rtb" then throw "no-reset"
       let s' := rtbReset s
-      return stCode s' :: (← traceGo kind f s' r)
-  | "Z" :: r => do
-      if kind != "rtb" then throw "no-reset"
-      let s' := rtbResetFixed s
       return stCode s' :: (← traceGo kind f s' r)
   | t :: r => do
       let s' := f s (obsOfCode (← nat t))
@@ -119,7 +111,7 @@ def opsC20 : List (String × Handler) := [
           | L'+1 => first.flatMap fun o => let s' := f St.init o; s' :: trie f later L' s'
         return fmtNats (out.map stCode)
       | _ => throw "arity"),
-  -- c20.trace kind maxSteps patience stateCode (obsCode | R | Z)*   (R: reset as coded, Z: repaired reset)  -> state code after each event
+  -- c20.trace kind maxSteps patience stateCode (obsCode | R)*   (R: reset)  -> state code after each event
   ("c20.trace", fun ts => do
       match ts with
       | kind :: ms :: pt :: s0 :: rest =>
@@ -142,14 +134,11 @@ def opsC20 : List (String × Handler) := [
           | "opt" => let r := optimize c s0 (obsFn os); pure (r.1, r.1, r.2)
           | "icp" => pure (icpForward c s0 (obsFn os))
           | "mpc" => pure (mpcForward (mpcInitN k c) s0 (obsFn os))
-          -- variants for a code base whose reset() clears patience_count (rtbReset {s with pc := 0} = rtbResetFixed s)
-          | "icp0" => pure (icpForward c { s0 with pc := 0 } (obsFn os))
-          | "mpc0" => pure (mpcForward (mpcInitN k c) { s0 with pc := 0 } (obsFn os))
           | _ => throw "bad-kind"
         if it > os.length then throw "short"
         return fmtNats [it, calls, stCode s]
       | _ => throw "arity"),
-  -- c20.rtb.num maxSteps patience d tol B (S x1..xB | R | Z)*  -> per event: stateCode nodec below
+  -- c20.rtb.num maxSteps patience d tol B (S x1..xB | R)*  -> per event: stateCode nodec below
   ("c20.rtb.num", fun ts => do
       match ts with
       | ms :: pt :: d :: tol :: b :: rest =>
